@@ -282,11 +282,26 @@ impl FixtureDatabase {
         file_path: &Path,
         content: &str,
     ) -> Option<Arc<rustpython_parser::ast::Mod>> {
-        self.get_parsed_ast(file_path, content).or_else(|| {
-            self.ast_cache
-                .get(file_path)
-                .map(|cached| Arc::clone(&cached.value().1))
-        })
+        self.get_parsed_ast(file_path, content)
+            .or_else(|| {
+                self.ast_cache
+                    .get(file_path)
+                    .map(|cached| Arc::clone(&cached.value().1))
+            })
+            .or_else(|| {
+                // The tree was dropped when the document was closed or evicted; that only
+                // happens to text that equals the file, so the file holds the last valid version
+                let on_disk = std::fs::read_to_string(file_path).ok()?;
+                self.get_parsed_ast(file_path, &on_disk)
+            })
+    }
+
+    /// Drop the cached syntax tree of a file whose text is being dropped from the cache -
+    /// unless it is the tree of the file's last valid version (the current text does not
+    /// parse): that one cannot be derived from the text again, and import lookups need it.
+    fn drop_derivable_ast(&self, file_path: &Path, text: &str) {
+        self.ast_cache
+            .remove_if(file_path, |_, (hash, _)| *hash == Self::hash_content(text));
     }
 
     /// Compute a hash of the content for cache invalidation.
@@ -349,11 +364,10 @@ impl FixtureDatabase {
         // Remove from line_index_cache
         self.line_index_cache.remove(&canonical);
 
-        // Remove from ast_cache
-        self.ast_cache.remove(&canonical);
-
-        // Remove from file_cache
-        self.file_cache.remove(&canonical);
+        // Remove from file_cache, and from ast_cache the tree that can be parsed from it again
+        if let Some((_, text)) = self.file_cache.remove(&canonical) {
+            self.drop_derivable_ast(&canonical, &text);
+        }
 
         // Remove from available_fixtures_cache (this file's cached available fixtures)
         self.available_fixtures_cache.remove(&canonical);
@@ -413,7 +427,7 @@ impl FixtureDatabase {
                 }
                 // Also clean related caches for consistency
                 self.line_index_cache.remove(&path);
-                self.ast_cache.remove(&path);
+                self.drop_derivable_ast(&path, &compared);
                 self.available_fixtures_cache.remove(&path);
                 self.imported_fixtures_cache.remove(&path);
             }
